@@ -127,8 +127,27 @@ SCENARIOS['S5z'] = {
 # S2 with the Data packets arriving inside link-layer envelopes
 SCENARIOS['S2w'] = dict(SCENARIOS['S2'], packets={k: (dict(v, lp=True) if 'data' in v else v) for k, v in SCENARIOS['S2']['packets'].items()})
 
-LEN = {'quick': {'S1': 5, 'S2': 5, 'S3': 5, 'S3b': 5, 'S4': 5, 'S5': 5, 'S7': 5, 'S1p': 4, 'S4p': 4, 'S7p': 4, 'S2w': 4, 'S1m': 4, 'S7m': 4, 'S5d': 4, 'S3d': 5, 'S1u': 4, 'S5z': 4, 'S2g': 3, 'S7g': 3, 'S1t': 3, 'S7t': 3},
-       'thorough': {'S1': 6, 'S2': 6, 'S3': 6, 'S3b': 6, 'S4': 6, 'S5': 6, 'S7': 6, 'S1p': 5, 'S4p': 5, 'S7p': 5, 'S2w': 5, 'S1m': 5, 'S7m': 5, 'S5d': 5, 'S3d': 6, 'S1u': 5, 'S5z': 5, 'S2g': 4, 'S7g': 4, 'S1t': 4, 'S7t': 4}}
+# MustBeFresh is the forwarder's business: a Data without (or with a zero) FreshnessPeriod that comes back satisfies the Interest
+SCENARIOS['S1f'] = dict(SCENARIOS['S1'], phase2=False,
+                        interests=[dict(it, mbf=True) for it in SCENARIOS['S1']['interests']],
+                        packets=dict(SCENARIOS['S1']['packets'], dB={'data': '/a/b', 'fresh': 0}))
+# lifetimes of one and two milliseconds, three Interests expressed in the same instant
+SCENARIOS['S7k'] = dict(SCENARIOS['S7'], phase2=False,
+                        interests=[dict(it, lifetime=lt) for it, lt in zip(SCENARIOS['S7']['interests'], (1, 1, 2))])
+# express_raw_interest with a final name the application keeps as one list object and passes again (retransmission): two callers
+# with a digest that no packet has share one list, two callers with the digest of dB share another
+SCENARIOS['S8r'] = {
+    'interests': [{'name': '/a/b', 'cbp': False, 'lifetime': 20, 'digest': 'wrong', 'rawx': 'L'},
+                  {'name': '/a/b', 'cbp': False, 'lifetime': 20, 'digest': 'wrong', 'rawx': 'L'},
+                  {'name': '/a/b', 'cbp': False, 'lifetime': 20, 'digest_of': 'dB', 'rawx': 'M'},
+                  {'name': '/a/b', 'cbp': False, 'lifetime': 20, 'digest_of': 'dB', 'rawx': 'M'}],
+    'packets': {'dB': {'data': '/a/b'}, 'nB': {'nack': '/a/b', 'reason': 100}},
+    'prefix': ['x0'],
+    'alphabet': ['x1', 'x2', 'x3', 'dB', 'dB', 'nB', 't', 't'],
+}
+
+LEN = {'quick': {'S1f': 3, 'S7k': 4, 'S8r': 5, 'S1': 5, 'S2': 5, 'S3': 5, 'S3b': 5, 'S4': 5, 'S5': 5, 'S7': 5, 'S1p': 4, 'S4p': 4, 'S7p': 4, 'S2w': 4, 'S1m': 4, 'S7m': 4, 'S5d': 4, 'S3d': 5, 'S1u': 4, 'S5z': 4, 'S2g': 3, 'S7g': 3, 'S1t': 3, 'S7t': 3},
+       'thorough': {'S1f': 4, 'S7k': 5, 'S8r': 6, 'S1': 6, 'S2': 6, 'S3': 6, 'S3b': 6, 'S4': 6, 'S5': 6, 'S7': 6, 'S1p': 5, 'S4p': 5, 'S7p': 5, 'S2w': 5, 'S1m': 5, 'S7m': 5, 'S5d': 5, 'S3d': 6, 'S1u': 5, 'S5z': 5, 'S2g': 4, 'S7g': 4, 'S1t': 4, 'S7t': 4}}
 DEV = {'quick': 1, 'thorough': 2}
 
 
@@ -214,7 +233,7 @@ class Built:
         for label, p in sp['packets'].items():
             if 'data' in p:
                 content = None if p.get('nocontent') else ('content-of-' + label).encode()       # a Data packet need not have a Content element
-                wire = bytes(enc.make_data(p['data'], enc.MetaInfo(), content, DigestSha256Signer()))
+                wire = bytes(enc.make_data(p['data'], enc.MetaInfo(freshness_period=p.get('fresh')), content, DigestSha256Signer()))
                 # 'lp': the same Data inside a link-layer envelope (CongestionMark header); the packet hash is that of the Data
                 self.packets[label] = (b'\x64' + bytes([len(wire) + 7]) + b'\xfd\x03\x40\x01\x01' + b'\x50' + bytes([len(wire)]) + wire
                                        if p.get('lp') else wire)
@@ -241,7 +260,8 @@ class Built:
                 d = '00' * 32
             self.interests[i] = {'comps': comps_of(it['name']), 'cbp': it['cbp'], 'digest': d, 'await_delay': it.get('await_delay', 0),
                                  'lifetime': it['lifetime'], 'vlat': it.get('vlat', 0),
-                                 'verdict': it.get('verdict', 'accept'), 'name': it['name'], 'raw': it.get('raw', False)}
+                                 'verdict': it.get('verdict', 'accept'), 'name': it['name'], 'raw': it.get('raw', False),
+                                 'mbf': it.get('mbf', False), 'rawx': it.get('rawx')}
 
 
 _BUILT = {}
@@ -266,6 +286,7 @@ class PitScenario:
         self.expressed_ok = 0
         self.fail_results = {}
         self.shared_param = enc.InterestParam()
+        self.raw_names = {}
 
     def close(self):
         if getattr(self, 'dbg', None) is not None:
@@ -363,13 +384,20 @@ class PitScenario:
                 p = self.shared_param
                 p.can_be_prefix, p.lifetime, p.nonce, p.must_be_fresh = it['cbp'], it['lifetime'], 1000 + i, False
                 coro = self.fe.express(self.app, name, validator=self._validator(i), interest_param=p)
+            elif it.get('rawx'):
+                # the application builds the Interest itself and keeps the final name as a list of encoded components, which it
+                # passes again whenever it sends that Interest again
+                final = self.raw_names.setdefault(it['rawx'], [bytes(c) for c in name])
+                ip = enc.InterestParam(can_be_prefix=it['cbp'], lifetime=it['lifetime'], nonce=1000 + i)
+                wire = enc.make_interest(list(final), ip)
+                coro = self.app.express_raw_interest(final, ip, wire, self._validator(i))
             elif it.get('raw') and self.fe.name == 'legacy':
                 # the caller also asks for the raw packet bytes (4-tuple result)
                 coro = self.fe.express(self.app, name, validator=self._validator(i), lifetime=it['lifetime'],
                                        can_be_prefix=it['cbp'], nonce=1000 + i, need_raw_packet=True)
             else:
                 coro = self.fe.express(self.app, name, validator=self._validator(i), lifetime=it['lifetime'],
-                                       can_be_prefix=it['cbp'], nonce=1000 + i)
+                                       can_be_prefix=it['cbp'], nonce=1000 + i, **({'must_be_fresh': True} if it.get('mbf') else {}))
             self.expressed_ok += 1
             if it.get('await_delay') and self.fe.name != 'legacy':
                 # the caller does something else before it awaits the result
